@@ -17,6 +17,7 @@ import H263V.Lemmas.GatherSpec
 import H263V.Lemmas.StreamAny
 import H263V.Lemmas.ReconSpec
 import H263V.Lemmas.LevelArrays
+import H263V.Lemmas.SampleErr
 namespace H263V.Thm.C03
 open H263V H263V.Gather H263V.Mv H263V.Spec.Vlc
 
@@ -169,6 +170,23 @@ theorem vector_array (hdr : PicHdr) (dims : Option (Nat × Nat)) (running m : Na
     (h : semMbs hdr dims running m mbs l = .ok l') :
     ∃ vs, MvChain hdr dims running m l.mvs mbs vs ∧ l'.mvs = l.mvs ++ vs.toArray :=
   semMbs_vectors hdr dims running m mbs l l' h
+
+open H263V.State H263V.Lemmas.GatherPic H263V.Lemmas.SampleErr in
+/-- **The statement of C03, sample by sample**: every sample of a predicted picture is within one of
+`clip 0..255 (motion-compensated prediction + reference inverse transform of the covering block's dequantised levels)`. -/
+theorem predicted_samples_within_one_of_ideal (types : Array MbType) (r : DecPic) (mvs : Array Mv4) (m w hh : Nat) (pic out : DecPic)
+    (lumaLv cbLv crLv : Array Rle.Dct)
+    (hdims : r.fmt.dims = some (w, hh)) (hw : 1 ≤ w) (hc : 1 ≤ r.chromaSpr) (hcs : pic.chromaSpr = r.chromaSpr) (hm : m ≠ 0)
+    (hls : pic.luma.size = r.luma.size) (hbs : pic.cb.size = r.cb.size) (hrs : pic.cr.size = r.cr.size)
+    (hl : AllBounded lumaLv) (hb : AllBounded cbLv) (hr : AllBounded crLv)
+    (h : reconstruct types (some r) mvs m w pic lumaLv cbLv crLv = .ok out) :
+    (∀ k, ((out.luma.getD k 0 : Int) -
+      (idealVal lumaLv (m * 2) w r.luma.size k (lumaAt types r mvs m w pic.luma k) : Int)).natAbs ≤ 1) ∧
+    (∀ k, ((out.cb.getD k 0 : Int) -
+      (idealVal cbLv m r.chromaSpr r.cb.size k (chromaAt types r.cb r.chromaSpr mvs m pic.cb k) : Int)).natAbs ≤ 1) ∧
+    (∀ k, ((out.cr.getD k 0 : Int) -
+      (idealVal crLv m r.chromaSpr r.cr.size k (chromaAt types r.cr r.chromaSpr mvs m pic.cr k) : Int)).natAbs ≤ 1) :=
+  predicted_close types r mvs m w hh pic out lumaLv cbLv crLv hdims hw hc hcs hm hls hbs hrs hl hb hr h
 
 open H263V.Lemmas.GatherPic H263V.Lemmas.ReconSpec in
 /-- a zero vector predicts the co-located reference sample (not-coded macroblocks, which also carry no residual, are exact copies
